@@ -1,11 +1,131 @@
-(** C09 — normal forms are reached, results verify, inputs are never mutated (stage 1).
-    Statements only. *)
-From Algo.C08 Require Import Model Names.
-From Algo.C09 Require Import Model Concrete.
+(** C09 — normal forms are reached, results verify, inputs are never mutated.
+
+    Statements only; proofs are in Algo.C09.Proofs*.  The transformations are the model
+    functions of Algo.C08.Model, the post-conditions the boolean checkers of Algo.C09.Model
+    (the same functions the driver evaluates on the grammars returned by the Go code).
+    Assumptions on the parameters as in Properties/C08.v (boolean equalities are correct,
+    [fresh] returns names that are not yet used).
+
+    "Inputs are never mutated": the model is a pure function of the grammar value, so the
+    statement is carried by the correspondence, which requires g.Equal(clone) after every call
+    of the seven transformations, of predictive.BuildParsingTable (fix D09d) and of the four LR
+    grammar constructors, on every generated grammar.
+
+    Known findings (refuted below on the faithful model): D09b (LeftFactor does not reach its
+    normal form) and D09c (a non-terminal that generates no non-empty string is left without a
+    production, so Verify() fails). *)
+From Coq Require Import List.
+From Algo.Grammar Require Import CFG.
+From Algo.C08 Require Import Model Spec ProofsBase ProofsLang1 ProofsLang2 ProofsLang3 ProofsLang4 Names NamesProofs.
+From Algo.C09 Require Import Model Concrete Proofs ProofsCNF ProofsVerify.
+Import ListNotations.
+
+Section C09.
+  Context {T N : Type}.
+  Variable teqb : T -> T -> bool.
+  Variable neqb : N -> N -> bool.
+  Variable t2n : T -> N.
+  Variable fresh : skind -> list N -> N -> option N.
+  Hypothesis teqb_spec : forall x y, teqb x y = true <-> x = y.
+  Hypothesis neqb_spec : forall x y, neqb x y = true <-> x = y.
+  Hypothesis fresh_spec : forall k nts b x, fresh k nts b = Some x -> ~ In x nts.
+
+  Notation gram := (grammar T N).
+
+  (** the checker [verify] decides exactly what Verify() accepts *)
+  Theorem C09_verify_correct : forall G : gram, verify teqb neqb G = true <-> valid G.
+  Proof. exact (verify_spec teqb neqb teqb_spec neqb_spec). Qed.
+
+  (** correctness of the syntactic checkers *)
+  Theorem C09_is_cnf_correct : forall G : gram,
+    is_cnf neqb G = true <-> forall p, In p (prods G) -> cnf_prod G p.
+  Proof. exact (is_cnf_spec neqb neqb_spec). Qed.
+
+  Theorem C09_no_unit_correct : forall G : gram,
+    no_unit G = true <-> forall p B, In p (prods G) -> body p <> [Nt B].
+  Proof. exact no_unit_spec. Qed.
+
+  (** ChomskyNormalForm reaches Chomsky normal form (the independent, stricter check —
+      start symbol on no right-hand side — is evaluated on the Go outputs by the driver) and
+      its result declares every symbol it uses *)
+  Theorem C09_chomsky_post : forall G G' : gram, valid G ->
+    chomsky teqb neqb t2n fresh G = Ok G' ->
+    is_cnf neqb G' = true /\ verify_symbols teqb neqb G' = true.
+  Proof.
+    intros G G' HG H. split.
+    - exact (chomsky_post teqb neqb t2n fresh teqb_spec neqb_spec fresh_spec G G' (valid_wf G HG) H).
+    - apply (verify_symbols_spec teqb neqb teqb_spec neqb_spec).
+      exact (proj2 (ok_or_names_ok _ _ _ (chomsky_total teqb neqb t2n fresh teqb_spec neqb_spec fresh_spec G (valid_wf G HG)) H)).
+  Qed.
+
+  (** EliminateEmptyProductions: no ε-production except for a fresh start symbol *)
+  Theorem C09_del_post : forall G G' : gram, valid G -> del teqb neqb fresh G = Ok G' ->
+    no_empty_except_fresh_start teqb neqb G' = true /\ verify_symbols teqb neqb G' = true.
+  Proof.
+    intros G G' HG H. split.
+    - exact (del_post teqb neqb fresh teqb_spec neqb_spec fresh_spec G G' (valid_wf G HG) H).
+    - apply (verify_symbols_spec teqb neqb teqb_spec neqb_spec).
+      exact (proj2 (ok_or_names_ok _ _ _ (del_total teqb neqb fresh teqb_spec neqb_spec fresh_spec G (valid_wf G HG)) H)).
+  Qed.
+
+  (** EliminateSingleProductions: no unit production *)
+  Theorem C09_unit_post : forall G G' : gram, valid G -> unit_elim teqb neqb G = Ok G' ->
+    no_unit G' = true /\ verify_symbols teqb neqb G' = true.
+  Proof.
+    intros G G' HG H. split.
+    - exact (unit_post teqb neqb teqb_spec neqb_spec G G' (valid_wf G HG) H).
+    - apply (verify_symbols_spec teqb neqb teqb_spec neqb_spec).
+      exact (proj2 (ok_or_names_ok _ _ _ (unit_total teqb neqb teqb_spec neqb_spec G (valid_wf G HG)) H)).
+  Qed.
+
+  (** EliminateUnreachableProductions: only symbols reachable from the start symbol *)
+  Theorem C09_unreachable_post : forall G G' : gram, valid G -> unreachable_elim teqb neqb G = Ok G' ->
+    all_reachable teqb neqb G' = true /\ verify_symbols teqb neqb G' = true.
+  Proof.
+    intros G G' HG H. split.
+    - exact (unreachable_post teqb neqb neqb_spec G G' H).
+    - apply (verify_symbols_spec teqb neqb teqb_spec neqb_spec).
+      exact (proj2 (ok_or_names_ok _ _ _ (unreachable_total teqb neqb teqb_spec neqb_spec G (valid_wf G HG)) H)).
+  Qed.
+
+  (** Results pass Verify() on the domain that excludes exactly the signature of D09c *)
+  Theorem C09_del_verify : forall G G' : gram, valid G -> all_yield G ->
+    del teqb neqb fresh G = Ok G' -> verify teqb neqb G' = true.
+  Proof.
+    intros G G' HG Hy H. apply (verify_spec teqb neqb teqb_spec neqb_spec).
+    exact (del_valid teqb neqb fresh teqb_spec neqb_spec fresh_spec G G' (valid_wf G HG) Hy H).
+  Qed.
+
+  Theorem C09_unit_verify : forall G G' : gram, valid G -> all_productive G ->
+    unit_elim teqb neqb G = Ok G' -> verify teqb neqb G' = true.
+  Proof.
+    intros G G' HG Hy H. apply (verify_spec teqb neqb teqb_spec neqb_spec).
+    exact (unit_valid teqb neqb teqb_spec neqb_spec G G' (valid_wf G HG) Hy H).
+  Qed.
+
+  (** every other result declares all the symbols it uses (Verify() minus "every non-terminal
+      has a production") *)
+  Theorem C09_cycles_symbols : forall G G' : gram, valid G -> cycles_elim teqb neqb fresh G = Ok G' ->
+    verify_symbols teqb neqb G' = true.
+  Proof.
+    intros G G' HG H. apply (verify_symbols_spec teqb neqb teqb_spec neqb_spec).
+    exact (proj2 (ok_or_names_ok _ _ _ (cycles_total teqb neqb fresh teqb_spec neqb_spec fresh_spec G (valid_wf G HG)) H)).
+  Qed.
+
+  (** full statements not (yet) proved on the model; checked on the Go outputs by the driver *)
+  Definition C09_cycles_post_full : Prop := forall G G' : gram, valid G ->
+    cycles_elim teqb neqb fresh G = Ok G' -> no_cycle neqb G' = true.
+  Definition C09_left_recursion_post_full : Prop := forall (order : gram -> list N) (G G' : gram), valid G ->
+    left_recursion_elim teqb neqb fresh order G = Ok G' -> no_left_recursion neqb G' = true.
+  Definition C09_verify_full (X : gram -> res gram) : Prop := forall G G' : gram, valid G ->
+    X G = Ok G' -> verify teqb neqb G' = true.
+  Definition C09_left_factor_post_full : Prop := forall G G' : gram, valid G ->
+    left_factor teqb neqb fresh G = Ok G' -> left_factored teqb neqb G' = true.
+End C09.
 
 Definition nm (c : N) : name := [c].
 
-(** D09b (known finding): the faithful model of LeftFactor refutes the post-condition:
+(** D09b (known finding): the faithful model of LeftFactor refutes its post-condition:
     S -> a b | a c is returned unchanged. *)
 Theorem C09_left_factor_post_refuted :
   exists G G', c_verify G = true /\ c_left_factor G = Ok G' /\ c_left_factored G' = false.
@@ -16,7 +136,7 @@ Proof.
 Qed.
 
 (** D09c (known finding): S -> A b; A -> ε: the result of EliminateEmptyProductions keeps A
-    without any production and fails Verify(). *)
+    without any production and fails Verify() — [C09_verify_full del] is refuted. *)
 Theorem C09_del_verify_refuted :
   exists G G', c_verify G = true /\ c_del G = Ok G' /\ c_verify G' = false.
 Proof.
@@ -25,5 +145,26 @@ Proof.
   eexists. vm_compute. repeat split.
 Qed.
 
+(** non-vacuity: (a b)* as S -> a S b S | ε reaches CNF with 10 productions and verifies *)
+Example C09_example_cnf :
+  let S := nm 83%N in
+  let G := mkGrammar [nm 97; nm 98]%N [S]
+             [mkProd S [Tm (nm 97%N); Nt S; Tm (nm 98%N); Nt S]; mkProd S []] S in
+  match c_chomsky G with
+  | Ok G' => c_is_cnf_strict G' = true /\ c_verify G' = true /\ c_verify G = true
+  | _ => False
+  end.
+Proof. vm_compute. repeat split. Qed.
+
+Print Assumptions C09_verify_correct.
+Print Assumptions C09_is_cnf_correct.
+Print Assumptions C09_no_unit_correct.
+Print Assumptions C09_chomsky_post.
+Print Assumptions C09_del_post.
+Print Assumptions C09_unit_post.
+Print Assumptions C09_unreachable_post.
+Print Assumptions C09_del_verify.
+Print Assumptions C09_unit_verify.
+Print Assumptions C09_cycles_symbols.
 Print Assumptions C09_left_factor_post_refuted.
 Print Assumptions C09_del_verify_refuted.
